@@ -199,3 +199,11 @@ func VerifC09_PingPongStreamLayer() {
 	}
 	verif.Cover("end")
 }
+
+// VerifC10_PingPongStreamLayer: the same exploration counted for C10 (the
+// request slot and the active gauges are released on every way a request can
+// end, also when the peer closes the connection with the request in flight).
+func VerifC10_PingPongStreamLayer() {
+	VerifC09_PingPongStreamLayer()
+	verif.Cover("c10")
+}
